@@ -11,6 +11,8 @@ use std::io::Write;
 
 mod c06;
 mod c07;
+mod c09;
+mod gen;
 mod c13;
 mod c14;
 mod c20;
@@ -89,6 +91,7 @@ fn main() {
         "C20" => c20::run(&mut ctx),
         "C06" => c06::run(&mut ctx),
         "C07" => c07::run(&mut ctx),
+        "C09" => c09::run(&mut ctx),
         "C13" => c13::run(&mut ctx),
         "C14" => c14::run(&mut ctx),
         other => { eprintln!("unknown property {other}"); std::process::exit(2); }
